@@ -309,7 +309,12 @@ class _NpProxy:
 
 def corr_rsing(rng, objs, extra=60):
     r = result()
-    loop = _rsing_loop_source()
+    try:
+        loop = _rsing_loop_source()
+    except Exception as ex:
+        loop = None          # the function is organised differently (helpers extracted, ...): the synthetic inputs, which are
+                             # fed through a slice of its source, are not available; the real objects below still are
+        r['unchecked'] = ['synthetic r_singularity inputs (source slice unavailable: %s)' % type(ex).__name__]
     lines, plan = [], []
     def run_points(g, roots_override=None):
         """g: dict of arrays g0..g2c; returns per-point (scalars, roots, expected rc or None when the source raised)"""
@@ -347,6 +352,28 @@ def corr_rsing(rng, objs, extra=60):
         with Capture(['calculate_r_singularity']) as cap:
             q.calculate_r_singularity()
         L = cap.locals['calculate_r_singularity']
+        if loop is None:
+            # per-point roots observed on the real run, scalars from the captured locals (if they still carry these names)
+            import numpy.polynomial.polynomial as _P
+            names10 = ('g0', 'g1c', 'g20', 'g2s', 'g2c', 'K0', 'K2s', 'K2c', 'K4s', 'K4c')
+            if all(k in L for k in names10):
+                recs = []
+                orig_pr = _P.polyroots
+                def spy(c, _o=orig_pr):
+                    rt = np.asarray(_o(c), dtype=complex); recs.append(rt); return rt
+                _P.polyroots = spy
+                try:
+                    q.calculate_r_singularity()
+                finally:
+                    _P.polyroots = orig_pr
+                arr = {k: np.asarray(L[k], float) * np.ones(q.nphi) for k in names10}
+                if len(recs) == q.nphi:
+                    for j in range(q.nphi):
+                        sc = [arr[k][j] for k in names10]
+                        lines.append('hand rsing %s %s %s' % (bl(sc), bl(recs[j].real), bl(recs[j].imag)))
+                        plan.append((sc, recs[j], float(q.r_singularity_vs_varphi[j])))
+            lines.append('hand rsingmin %s' % bl(q.r_singularity_vs_varphi)); plan.append(('min', q.r_singularity_vs_varphi, float(q.r_singularity)))
+            continue
         g = {k: np.asarray(L[k], float) * np.ones(q.nphi) for k in ('g0', 'g1c', 'g20', 'g2s', 'g2c')}
         k0 = len(plan)
         run_points(g)
@@ -357,7 +384,7 @@ def corr_rsing(rng, objs, extra=60):
         # np.min over the grid
         lines.append('hand rsingmin %s' % bl(q.r_singularity_vs_varphi)); plan.append(('min', q.r_singularity_vs_varphi, float(q.r_singularity)))
     # (2) synthetic scalars; roots exact, perturbed, made complex, pushed to |w| = 1, or forced through trig-exact points
-    for t in range(extra):
+    for t in range(extra if loop is not None else 0):
         n = 3
         mode = t % 7
         g = dict(g0=rng.normal(size=n) * rng.choice([1.0, 0.1]), g1c=rng.normal(size=n), g20=rng.normal(size=n),
